@@ -168,6 +168,10 @@ type Ctx struct {
 	concretePos   int
 	allocTracking bool
 	allocMaxTerm  *Term
+	// model is an assignment of the input variables known to satisfy the current path condition (when modelValid)
+	model      map[string]uint64
+	modelValid bool
+	modelHits  int
 	extra         map[string]any
 }
 
@@ -189,6 +193,29 @@ func (c *Ctx) assume(t *Term) {
 	if c.solver != nil {
 		c.solver.Assert(t)
 	}
+	if c.modelValid && !c.modelSat(t) {
+		c.modelValid = false
+	}
+}
+
+// modelSat evaluates a Bool term under the cached model.
+func (c *Ctx) modelSat(t *Term) bool {
+	if !c.modelValid {
+		return false
+	}
+	return t.Eval(c.model, map[*Term]uint64{}) == 1
+}
+
+// fetchModel stores the solver's current model (call between a Sat Check and EndCheck).
+func (c *Ctx) fetchModel() {
+	var vars []*Term
+	for _, in := range c.inputs {
+		if in.op == OpVar {
+			vars = append(vars, in)
+		}
+	}
+	c.model = c.solver.GetValues(vars)
+	c.modelValid = true
 }
 
 // assumeChecked adds cond to the path condition after checking that the path stays feasible.
@@ -202,12 +229,24 @@ func (c *Ctx) assumeChecked(cond *Term, what string) {
 	if c.solver == nil {
 		panic("symbolic assume in concrete mode")
 	}
+	if c.modelSat(cond) {
+		c.modelHits++
+		c.assume(cond)
+		return
+	}
 	r := c.solver.Check(cond, false)
+	if r == Sat {
+		c.fetchModel()
+	}
 	c.solver.EndCheck()
 	if r == Unsat {
 		panic(pathEnd{"assume", what})
 	}
+	valid := c.modelValid
 	c.assume(cond)
+	if r == Sat {
+		c.modelValid = valid // the fetched model satisfies PC and cond by construction
+	}
 }
 
 func (c *Ctx) branch(cond *Term) bool {
@@ -247,8 +286,24 @@ func (c *Ctx) choose(alts []*Term) int {
 		panic("symbolic choice in concrete mode")
 	}
 	var feas []int
+	known := -1 // alternative satisfied by the cached model: feasible without a query
+	if c.modelValid {
+		memo := map[*Term]uint64{}
+		for i, a := range alts {
+			if a.Eval(c.model, memo) == 1 {
+				known = i
+				break
+			}
+		}
+	}
+	var chosenModel map[string]uint64
 	for i, a := range alts {
 		if a.IsFalse() {
+			continue
+		}
+		if i == known {
+			c.modelHits++
+			feas = append(feas, i)
 			continue
 		}
 		if i == len(alts)-1 && len(feas) == 0 {
@@ -256,6 +311,13 @@ func (c *Ctx) choose(alts []*Term) int {
 			break
 		}
 		r := c.solver.Check(a, false)
+		if r == Sat && len(feas) == 0 {
+			// this alternative will be taken: keep its model
+			saved, savedValid := c.model, c.modelValid
+			c.fetchModel()
+			chosenModel = c.model
+			c.model, c.modelValid = saved, savedValid
+		}
 		c.solver.EndCheck()
 		if r != Unsat {
 			feas = append(feas, i)
@@ -270,7 +332,16 @@ func (c *Ctx) choose(alts []*Term) int {
 	d := Decision{N: feas[0]}
 	c.trace = append(c.trace, d)
 	c.pos++
-	c.assume(alts[d.N])
+	if d.N == known {
+		c.assume(alts[d.N])
+	} else {
+		c.assume(alts[d.N])
+		if chosenModel != nil {
+			c.model, c.modelValid = chosenModel, true
+		} else {
+			c.modelValid = false
+		}
+	}
 	return d.N
 }
 
@@ -311,6 +382,21 @@ func (c *Ctx) concretize(t *Term, what string) uint64 {
 		if c.solver == nil {
 			panic("symbolic concretize in concrete mode")
 		}
+		if c.modelValid {
+			c.modelHits++
+			v := t.Eval(c.model, map[*Term]uint64{})
+			vt := c.tb.Const(v, t.sort.bits)
+			ne := c.tb.Not(c.tb.Eq(t, vt))
+			r2 := c.solver.Check(ne, false)
+			c.solver.EndCheck()
+			if r2 != Unsat {
+				c.enqueue(Decision{N: 1, Val: v, K: 1})
+			}
+			c.trace = append(c.trace, Decision{N: 0, Val: v, K: 1})
+			c.pos++
+			c.assume(c.tb.Eq(t, vt))
+			return v
+		}
 		c.solver.Predefine(t)
 		r := c.solver.Check(nil, false)
 		if r != Sat {
@@ -321,6 +407,7 @@ func (c *Ctx) concretize(t *Term, what string) uint64 {
 			panic(pathEnd{"infeasible", "path condition not satisfiable while concretising " + what})
 		}
 		vals := c.solver.GetValues([]*Term{t})
+		c.fetchModel()
 		c.solver.EndCheck()
 		v, ok := vals[t.refName()]
 		if !ok {
@@ -499,7 +586,10 @@ func (c *Ctx) checkAssert(label string, cond *Term, known string, pattern *Term)
 func (c *Ctx) crossCheck(label string, neg *Term) {
 	asserts := append(append([]*Term{}, c.pc...), neg)
 	script := Script(asserts)
-	for _, k := range []string{"cvc5", "z3-new"} {
+	for _, k := range []string{"cvc5", "z3", "z3-new"} {
+		if k == c.shared.opts.Solver {
+			continue
+		}
 		r, err := CheckFresh(k, script, c.shared.opts.TimeoutMs)
 		c.shared.mu.Lock()
 		c.shared.res.CrossChecked[k+":"+r.String()]++
@@ -608,6 +698,7 @@ func (s *Shared) runPath(tb *TermTable, solver *Solver, prefix []Decision) {
 	}
 	if solver != nil {
 		solver.NewPath()
+		c.model, c.modelValid = map[string]uint64{}, true // the empty path condition is satisfied by any assignment
 	}
 	status, msg := "end", ""
 	var gp *goPanicSig
@@ -652,11 +743,23 @@ func (s *Shared) runPath(tb *TermTable, solver *Solver, prefix []Decision) {
 		want := len(s.res.Models) < s.opts.Models
 		s.mu.Unlock()
 		if want {
-			if solver.Check(nil, false) == Sat {
-				vec := c.modelVector()
+			if c.modelValid {
+				vec := make([]uint64, len(c.inputs))
+				for i, in := range c.inputs {
+					if in.op == OpVar {
+						vec[i] = c.model[in.name]
+					} else {
+						vec[i] = in.val
+					}
+				}
 				pm = c.pathModel(vec, status, msg)
+			} else {
+				if solver.Check(nil, false) == Sat {
+					vec := c.modelVector()
+					pm = c.pathModel(vec, status, msg)
+				}
+				solver.EndCheck()
 			}
-			solver.EndCheck()
 		}
 	} else if (status == "end" || status == "panic") && solver == nil {
 		pm = c.pathModel(c.concreteVec, status, msg)
